@@ -25,7 +25,7 @@ EPOCH_UNARY = {"BALANCE", "EXTCODESIZE", "EXTCODEHASH"}
 PURE_UNARY = {"CALLDATALOAD", "BLOCKHASH"}
 PSEUDO_PUSH_V = {"PUSH [tag]", "PUSH data", "PUSHIMMUTABLE", "PUSHLIB", "PUSH #[$]", "PUSH [$]"}
 PSEUDO_PUSH_N = {"PUSHSIZE", "PUSHDEPLOYADDRESS"}
-POSITION_DEPENDENT = {"PC", "MSIZE"}
+POSITION_DEPENDENT = {"PC"}
 TERMINAL_REVERTING = {"REVERT", "INVALID", "ASSERTFAIL"}
 TERMINAL_COMMITTING = {"RETURN", "STOP", "SELFDESTRUCT", "SUICIDE"}
 LOGS = {"LOG0": 0, "LOG1": 1, "LOG2": 2, "LOG3": 3, "LOG4": 4}
@@ -379,6 +379,7 @@ class State:
         self.occ = {}
         self.terminal = None
         self.max_height = n_inputs
+        self.msize = ctx.const(("MSIZE0",))     # highest touched address rounded up to a word, so far
 
 
 def needed_depth(instrs):
@@ -454,6 +455,13 @@ def execute(ctx, instrs, n_inputs):
         st.occ[name] = k + 1
         return k
 
+    def touch(off, ln):
+        """memory expansion: MSIZE is the highest touched address rounded up to 32 (a zero-length access touches nothing)"""
+        end = off + ln
+        up = (end + BV(31)) & BV(MASK ^ 31)
+        grow = z3.And(ln != BV(0), z3.UGT(up, st.msize)) if not is_num(ln) else (z3.UGT(up, st.msize) if num(ln) else z3.BoolVal(False))
+        st.msize = z3.simplify(z3.If(grow, up, st.msize))
+
     def event(op, operands, data=None):
         k = len(st.events)
         st.events.append(Event(op, operands, data))
@@ -518,21 +526,26 @@ def execute(ctx, instrs, n_inputs):
             push(ctx.func(name, 1)(pop()))
         elif name == "GAS":
             push(ctx.const(("GAS", occ("GAS"))))
+        elif name == "MSIZE":
+            push(st.msize)
         elif name in POSITION_DEPENDENT:
             raise Unsupported(name)
         elif name == "MLOAD":
             off = pop()
             ctx.limit(off)
+            touch(off, BV(32))
             push(st.mem.word(off))
         elif name == "MSTORE":
             off = pop()
             val = pop()
             ctx.limit(off)
+            touch(off, BV(32))
             st.mem = st.mem.write32(off, val)
         elif name == "MSTORE8":
             off = pop()
             val = pop()
             ctx.limit(off)
+            touch(off, BV(1))
             st.mem = st.mem.write8(off, val)
         elif name == "SLOAD":
             push(z3.Select(st.sto, pop()))
@@ -545,6 +558,7 @@ def execute(ctx, instrs, n_inputs):
             ln = pop()
             ctx.limit(off)
             ctx.limit(ln)
+            touch(off, ln)
             push(keccak(ctx, st.mem, off, ln))
         elif name in LOGS:
             off = pop()
